@@ -67,6 +67,28 @@ def make_call(call: dict, root: str, tool=None):
         from octave_mcp.core.file_ops import atomic_write_octave
 
         return lambda: atomic_write_octave(target, call["text"], bh)
+    if entry == "editor":
+        # another PROGRAM (not the tool) edits the file in place while writers are at work: same inode, same size, mtime restored
+        def edit():
+            try:
+                st_ = os.stat(target)
+                fd_ = os.open(target, os.O_RDWR)
+            except OSError:
+                return {"status": "success", "edited": False}
+            try:
+                data = bytearray(os.read(fd_, 1 << 20))
+                for i_ in range(len(data) - 1, -1, -1):
+                    if 0x61 <= data[i_] <= 0x79 or 0x41 <= data[i_] <= 0x59 or 0x30 <= data[i_] <= 0x38:
+                        data[i_] += 1
+                        break
+                os.lseek(fd_, 0, 0)
+                os.write(fd_, bytes(data))
+            finally:
+                os.close(fd_)
+            os.utime(target, ns=(st_.st_atime_ns, st_.st_mtime_ns))
+            return {"status": "success", "edited": True}
+
+        return edit
     if entry == "cli":
         args = ["write", target]
         if call["mode"] == "content":
@@ -89,6 +111,8 @@ def outcome_of(call: dict, actor) -> dict:
 
 
 def outcome_of_result(call: dict, r) -> dict:
+    if call["entry"] == "editor":
+        return {"status": "external", "edited": r.get("edited")}
     if call["entry"] == "cli":
         text = " ".join(m for _, m in r["out"])
         if r["exit"] == 0:
@@ -465,6 +489,8 @@ def gen_race(t: Tape, idx: int) -> dict:
             w["changes"] = {"MARK": f"chg_{m}w{i}"}
         w["bh"] = t.weighted([(cur_h, 8), (None, 2), (sha_text("stale"), 1)], "r.bh")
         writers.append(w)
+    if init is not None and t.flag(250, "r.editor"):
+        writers.append({"entry": "editor", "mode": "stealth", "bh": None})
     knobs = {"sched": t.pick(["focus", "uniform", "focus"], "r.sched"), "switch_permille": t.pick([500, 300, 800, 150], "r.sw"),
              "wchunk": t.pick([1 << 16, 64], "r.wc"), "tmp_shared": bool(t.choose(2, "r.tmp"))}
     case = {"layer": "L2", "init": init, "writers": writers, "knobs": knobs, "tape": {"seed": t.choose(1 << 30, "r.tseed")},
@@ -505,7 +531,11 @@ def run_race(case: dict, stats: Stats | None = None) -> dict:
     def V(clause, detail, trace, shape=""):
         viols.append({"clause": clause, "detail": detail + f" [abstract order: {trace}]", "signature": f"L2.{clause}|{shape}"})
 
+    ext_mods = []  # global indices of in-place modifications by a non-cooperating program (the 'editor' actor)
+
     def before_op(sim_, a, op, kind):
+        if op.path == target and op.name == "write" and writers[a.id]["entry"] == "editor" and kind == "proceed":
+            ext_mods.append(len(sim_.events) - 1)
         if op.path == target or op.path2 == target:
             if op.name in ABSTRACT:
                 abstract.append((a.id, ABSTRACT[op.name]))
@@ -537,6 +567,18 @@ def run_race(case: dict, stats: Stats | None = None) -> dict:
     for ins in done_installs:
         w = writers[ins["actor"]]
         if w.get("bh") and ins["existed"] and ins["pre"] != w["bh"].strip().lower():
+            # A program that does not cooperate (takes no lock) can always slip in between a writer's final re-read and its
+            # replace; no code can prevent that and the property does not ask for it.  Excused only in exactly that case: the
+            # LATEST change before this install is an editor's write that happened after this writer began its last re-read.
+            rereads = [op.gidx for op in sim.events if op.actor == ins["actor"] and op.name == "open_r" and op.path == target
+                       and op.gidx < ins["gidx"]]
+            changes = [(x["gidx"], "install") for x in done_installs if x["gidx"] < ins["gidx"] and x["actor"] != ins["actor"]] + [
+                (g_, "editor") for g_ in ext_mods if g_ < ins["gidx"]]
+            if changes and rereads:
+                last = max(changes)
+                if last[1] == "editor" and last[0] > rereads[-1]:
+                    sim.probes["uncooperative_edit_after_final_reread_excused"] += 1
+                    continue
             V("I1", f"writer {ins['actor']} ({w['entry']}/{w['mode']}) installed its content while the file hashed to "
                     f"{str(ins['pre'])[:12]}, not to its base_hash {w['bh'][:12]}; outcomes={outs}", trace,
               lost_update_shape(sim, target, ins, done_installs, case["init"] is not None))
@@ -557,6 +599,8 @@ def run_race(case: dict, stats: Stats | None = None) -> dict:
             V("I2", f"writers {ws} all held base_hash {bh[:12]} and all returned success; outcomes={outs}", trace, shape)
     # I3: error => net-zero own operations; success => installed exactly the reported text
     for i, (w, a, o) in enumerate(zip(writers, actors, outs)):
+        if w["entry"] == "editor":
+            continue
         created = [op.path for op in a.ops if op.name == "open_c" and op.outcome == "ok" and op.path != target]
         gone = {op.path for op in a.ops if (op.cls == "unlink" or op.name in ("replace", "rename")) and op.outcome == "ok"}
         left = [p for p in created if p not in gone]
@@ -724,6 +768,7 @@ def canon_writers(init: str) -> list:
         {"entry": "cli", "mode": "changes", "changes": {"MARK": "chgF"}, "bh": h},
         {"entry": "tool", "mode": "content", "text": doc("G"), "bh": None},
         {"entry": "atomic", "mode": "content", "text": docs.canonical(doc("H")), "bh": None},
+        {"entry": "editor", "mode": "stealth", "bh": None},
     ]
 
 
@@ -1133,7 +1178,7 @@ def main(tier: str, seed: int, args) -> int:
                                      "complete": c.get("l1x_histories", 0) == l1x_count(3 if tier == "quick" else 5)},
         "l2x_exhaustive_two_writer_interleavings": {
             "switch_points": "before each open-for-read of the target, each flock operation and each replace onto the target",
-            "writer_kinds": 8, "pairs": len(l2x_pairs()), "pairs_exhausted": c.get("l2x_pairs_exhausted", 0),
+            "writer_kinds": 9, "pairs": len(l2x_pairs()), "pairs_exhausted": c.get("l2x_pairs_exhausted", 0),
             "pairs_capped": c.get("l2x_pairs_capped", 0), "schedules": c.get("l2x_schedules", 0),
             "schedules_per_pair": dict(stats.groups.get("l2x_schedules_per_pair", {}))},
         "l2_runs": c.get("l2_runs", 0), "l2_yield_points": c.get("yield_points", 0),
